@@ -8,6 +8,7 @@
 
 #include "common/genjson.hpp"
 #include "common/harness.hpp"
+#include "common/wb_edge.hpp"
 #include "common/refjson.hpp"
 #include "common/sonic_mv.hpp"
 
@@ -207,6 +208,10 @@ static void property(Src& s, Case& c) {
       char t[40];
       snprintf(t, sizeof t, "%llu.%llue%d", (unsigned long long)s.pick(1, 9), (unsigned long long)s.pick(0, 999999), s.coin(1, 2) ? s.range(-8, -4) : s.range(19, 23));
       bits = dbits(strtod(t, nullptr));
+      if (s.coin(1, 3)) {  // 17 significant digits just above the switch to positional notation: the longest spellings (25 bytes)
+        snprintf(t, sizeof t, "-%llu.%016llue-6", (unsigned long long)s.pick(1, 9), (unsigned long long)s.pick(0, 9999999999999999ull));
+        bits = dbits(strtod(t, nullptr));
+      }
       kind = "format-switch";
       break;
     }
@@ -231,6 +236,16 @@ static void property(Src& s, Case& c) {
     c.desc(t);
   }
   std::string m = judge(bits);
+  if (m.empty()) {
+    char out[40];
+    int n = internal::F64toa(out, d);
+    if (n >= 24) c.cls("spelling>=24-bytes");
+    // the same double at the end of a document, with every amount of space 18..48 left in the write buffer
+    if (n > 0 && (n >= 24 ? s.coin(1, 4) : s.coin(1, 64))) {
+      c.cls("write-buffer-edge-sweep");
+      m = wb_edge_sweep([&](Node& x) { x.SetDouble(d); }, std::string(out, (size_t)n), 18, 48, c.subevals);
+    }
+  }
   if (!m.empty()) {
     char t[64];
     snprintf(t, sizeof t, " | bits=0x%016llx (%.17g)", (unsigned long long)bits, d);
@@ -244,6 +259,13 @@ static void direct(const Fields& f, Case& c) {
   uint64_t bits = strtoull(b->c_str(), nullptr, 0);
   if (((bits >> 52) & 0x7ff) == 0x7ff) return;
   std::string m = judge(bits);
+  if (m.empty()) {
+    char out[40];
+    double d = bitsd(bits);
+    int n = internal::F64toa(out, d);
+    uint64_t ev = 0;
+    if (n > 0) m = wb_edge_sweep([&](Node& x) { x.SetDouble(d); }, std::string(out, (size_t)n), 18, 48, ev);
+  }
   if (!m.empty()) c.fail(m);
 }
 
